@@ -181,6 +181,11 @@ func (c *genCtx) key0(rt *rapid.T) string {
 		// keys that a path-cleaning router would change; expressible in both addressing styles
 		return rapid.SampledFrom([]string{"dir//obj", "dir/./obj", "dir/sub/../obj", "../bk1/a", "a/..", "./a", "d//x", "sp ace/q?x", "ü/日本", "plus+/a&b=c", ".hidden", "..double"}).Draw(rt, "oddkey")
 	}
+	if c.HostStyle && len(c.Buckets) > 0 && rapid.IntRange(0, 5).Draw(rt, "bucketkey?") == 0 {
+		// keys spelled like a bucket: in host style the path is the key, whatever it starts with
+		b := rapid.SampledFrom(c.Buckets).Draw(rt, "keybucket")
+		return rapid.SampledFrom([]string{b, b + "/x", b + "/" + b, b + "/a", b + ".x"}).Draw(rt, "bucketkey")
+	}
 	if c.hostile(rt) && !c.HostStyle {
 		return rapid.SampledFrom([]string{"a/../b", "../x", ".", "..", "a//b", "a/./b", ".hidden", "a\\b", "%2e%2e%2f", strings.Repeat("k", 1024), strings.Repeat("k", 1025),
 			strings.Repeat("k/", 1000) + "k", "ü/日本", "sp ace", "q?x=1", "h#ash", "plus+", "a&b=c", "trailing/"}).Draw(rt, "hkey")
